@@ -321,8 +321,40 @@ def apply_cases():
     return out
 
 
+PRODUCERS = [
+    "[1, 2]", "[]", "[[1]][0]", "new Array(2)", "Array(1, 2)", "[1].map(function (x) { return x })", "[1].filter(function () { return true })",
+    "[1, 2].slice(1)", "[1].concat([2])", "[1, 2, 3].splice(0, 1)", "[3, 1].sort()", "[3, 1].reverse()", "'a,b'.split(',')", "'ab'.split('')",
+    "'abc'.match(/b/)", "'abab'.match(/b/g)", "/b/.exec('abc')", "JSON.parse('[1]')", "JSON.parse('[[1]]')[0]", "JSON.parse('{\"a\":[]}').a",
+    "Object.keys({a: 1})", "Object.values({a: 1})", "Object.entries({a: 1})", "Object.entries({a: 1})[0]", "(function () { return [].slice.call(arguments) })(1)",
+    "{}", "{a: 1}", "new Object()", "Object()", "Object({q: 1})", "Object.create({})", "Object.create(null)", "Object.assign({}, {a: 1})", "JSON.parse('{}')",
+    "JSON.parse('{\"a\":{}}').a", "JSON.parse('[{}]')[0]", "Object.getOwnPropertyDescriptor({a: 1}, 'a')", "(function () { return arguments })(1)",
+    "new Error('m')", "new TypeError('m')", "(function () { try { null.x } catch (e) { return e } })()", "Error.prototype", "Object.prototype",
+    "/a/", "new RegExp('a')", "new Uint8Array(1)", "new Float64Array(1).subarray(0)", "new Uint8Array(1).buffer", "new ArrayBuffer(2)",
+    "function () { }", "(function () { return function () { } })()", "() => 1", "Math.abs", "[].push", "(function () { }).bind(null)", "Math", "JSON",
+    "new (function F() { this.a = 1 })()", "'str'", "5", "true", "null", "undefined",
+]
+PROVENANCE_OBS = ["X instanceof Array", "X instanceof Object", "X instanceof Error", "X instanceof RegExp", "X instanceof Function", "X instanceof Uint8Array",
+                  "X instanceof ArrayBuffer", "X instanceof TypeError", "Array.isArray(X)", "Object.getPrototypeOf(X) === Object.getPrototypeOf([])",
+                  "Object.getPrototypeOf(X) === Object.getPrototypeOf({})",        # (regexes, typed arrays, functions have no prototype OBJECT here: documented)
+                  "(function () { Object.getPrototypeOf({}).viaProto = 6; return X.viaProto })()", "typeof X"]
+
+
+def provenance_cases():
+    out = []
+    for pr in PRODUCERS:
+        for o in PROVENANCE_OBS:
+            src = "var r; try { r = (function () { var X = %s; return %s })() } catch (e) { r = 'throw:' + e.name } r" % (pr, o.replace("X", "X"))
+            out.append(("V|" + src, {"src": src}))
+    return out
+
+
 def core_spaces():
     return [
+        Space("c08_provenance", RUN, provenance_cases, oracle="table", batch=200, bound="%d x %d" % (len(PRODUCERS), len(PROVENANCE_OBS)),
+              rule="%d ways of obtaining a value (literals, constructors, every array- or object-returning built-in, nested results of "
+                   "JSON.parse, match / exec results, descriptors, errors thrown by the engine, regexes, typed arrays, buffers, functions of "
+                   "every kind, primitives) x %d questions about the chain (instanceof 8 constructors, isArray, prototype identity, a property "
+                   "added to Object.prototype shows, typeof)" % (len(PRODUCERS), len(PROVENANCE_OBS))),
         Space("c08_apply_args", RUN, apply_cases, oracle="table", batch=100, bound="%d x %d" % (len(APPLY_FNS), len(APPLY_ARGS)),
               rule="apply with %d kinds of argument list (arrays, nothing, array-likes with odd lengths, typed arrays, arguments objects, "
                    "primitives, inherited and accessor elements) on %d kinds of function (declaration, arrow, built-ins, bound)" % (
